@@ -26,7 +26,7 @@ git apply $patch
 rm -rf $dest/zz_demo_test.go zz_demo
 echo "$name: suite=$suite demo_with_change=$([ $with -ne 0 ] && echo FAILS || echo passes) demo_without=$([ $without -eq 0 ] && echo passes || echo FAILS)"
 for id in "$@"; do
-  r=$(cd /verif && VERIF_REPO=$wt timeout 1200 ./check $id quick 2>&1 | grep -E "VIOLATION|\[ok\]|MACHINERY" | head -1 | cut -c1-120)
+  r=$(cd /verif && VERIF_REPO=$wt timeout 1200 ./check $id quick 2>&1 | grep -a -E "VIOLATION|\[ok\]|MACHINERY" | head -1 | cut -c1-120)
   echo "   $id: $r"
 done
 git -C /repo worktree remove --force $wt
